@@ -179,7 +179,7 @@ crate::inst! { []
     dl_hist_3_2_3 = history<3,2,3>; dl_hist_2_3_5 = history<2,3,5>; dl_hist_3_3_2 = history<3,3,2>;
     dl_hist_3_3_5 = history<3,3,5>; dl_hist_3_3_7 = history<3,3,7>; dl_hist_1_3_4 = history<1,3,4>; dl_hist_4_3_3 = history<4,3,3>;
     dl_hist_2_2_3 = history<2,2,3>; dl_hist_2_2_5 = history<2,2,5>; dl_hist_1_1_2 = history<1,1,2>; dl_hist_1_2_3 = history<1,2,3>;
-    dl_hist_3_1_5 = history<3,1,5>; dl_hist_1_3_5 = history<1,3,5>; dl_hist_4_1_6 = history<4,1,6>;
+    dl_hist_3_1_4 = history<3,1,4>; dl_hist_1_4_5 = history<1,4,5>; dl_hist_3_1_5 = history<3,1,5>; dl_hist_1_3_5 = history<1,3,5>; dl_hist_4_1_6 = history<4,1,6>;
     dl_hist_3_3_4 = history<3,3,4>; dl_hist_3_3_3 = history<3,3,3>; dl_inv_2_2_3 = invariant<2,2,3>; dl_inv_2_2_4 = invariant<2,2,4>; dl_inv_1_2_3 = invariant<1,2,3>;
     dl_inv_2_2_2 = invariant<2,2,2>; dl_inv_2_3_5 = invariant<2,3,5>; dl_inv_3_1_6 = invariant<3,1,6>; dl_inv_0_2_3 = invariant<0,2,3>;
     dl_inv_3_3_4 = invariant<3,3,4>;
